@@ -226,8 +226,14 @@ pub(crate) fn lehmer_step(x: &mut [Word], y: &mut [Word], a: Word, b: Word, c: W
 #[inline]
 pub fn memory_requirement_up_to(lhs_len: usize, rhs_len: usize) -> Layout {
     // Required memory:
-    // - temporary space for the division in the euclidean step
-    div::memory_requirement_exact(lhs_len, rhs_len)
+    // - temporary space for the divisions in the euclidean steps. After the first step the
+    //   operands have other lengths than (lhs_len, rhs_len): the divisor can be any number of up
+    //   to rhs_len words and the quotient can have any length, so reserve the worst case of the
+    //   divide-and-conquer division (a product with one factor of up to rhs_len / 2 words).
+    memory::max_layout(
+        div::memory_requirement_exact(lhs_len, rhs_len),
+        mul::memory_requirement_up_to(rhs_len, rhs_len / 2),
+    )
 }
 
 pub(crate) fn gcd_in_place(
